@@ -11,12 +11,15 @@ oracle:  ground truth by construction (the generator knows which labels an expre
 from __future__ import annotations
 
 import json
+import logging
 import time
 
 import common
 from common import Check, LeanDriver, rng
 import gen_cel
 from gen_cel import Gen, UnknownNode, refs, shape_tags, text, tree_to_wire
+
+logging.disable(logging.CRITICAL)   # celpy logs (and formats) every evaluation error; keep the harness quiet
 
 LABELS = ["alpha", "beta_1", "gamma", "delta9", "eps_x", "zeta", "eta_2", "theta"]
 
@@ -169,14 +172,22 @@ def observed_step_reads(tree, labels):
     return set(Rec.read)
 
 
-def run_expressions(ck: Check, drv: LeanDriver, n: int, r, evaluate_every: int):
-    cases = []
-    for src in gen_cel.ODD:
-        cases.append((None, src, set()))
-    for i in range(n):
-        g = Gen(r, r.sample(LABELS, r.randint(1, 4)), depth=r.choice([1, 2, 2, 3, 3, 3, 4]))
-        e = g.expr()
-        cases.append((e, text(e), refs(e)))
+def run_expressions(ck: Check, drv: LeanDriver, n: int, r, evaluate_every: int, batch: int = 2000):
+    """in batches, so that a thorough run never holds more than `batch` parse trees"""
+    first = [(None, src, set()) for src in gen_cel.ODD]
+    done = 0
+    serial = 0
+    while done < n or first:
+        cases, first = first, []
+        for _ in range(min(batch, n - done)):
+            g = Gen(r, r.sample(LABELS, r.randint(1, 4)), depth=r.choice([1, 2, 2, 3, 3, 3, 4]))
+            e = g.expr()
+            cases.append((e, text(e), refs(e)))
+        done += min(batch, n - done)
+        serial = _expression_batch(ck, drv, cases, evaluate_every, serial)
+
+
+def _expression_batch(ck: Check, drv: LeanDriver, cases, evaluate_every: int, serial: int) -> int:
     reqs, keep = [], []
     for e, src, named in cases:
         tree, got = impl_extract(src)
@@ -184,16 +195,18 @@ def run_expressions(ck: Check, drv: LeanDriver, n: int, r, evaluate_every: int):
         ck.count(f"expr:{got[0]}")
         if tree is None:
             continue
+        serial += 1
         for k in gen_cel.tree_kinds(tree):
             ck.count(f"kind:{k}")
         if e is not None:
             for t in shape_tags(e):
                 ck.count(t)
         if named:
-            ck.nontriv(src)
+            ck.nontriv(hash(src))
         # the property on the implementation
         bad = expr_oracle(src, named, got)
-        if bad is None and e is not None and evaluate_every and len(keep) % evaluate_every == 0 and got[0] == "ok":
+        if bad is None and e is not None and evaluate_every and serial % evaluate_every == 0 and got[0] == "ok" \
+                and len(src) < 160:
             seen = observed_step_reads(tree, LABELS)
             static_only = "steps[" not in src.replace('steps["', "").replace("steps['", "")
             names = set(steps_names(got[1]))
@@ -203,7 +216,7 @@ def run_expressions(ck: Check, drv: LeanDriver, n: int, r, evaluate_every: int):
                 bad = f"evaluation read steps{lost} but the analysis did not record them"
         if bad is not None:
             small_src, small_named = src, named
-            if e is not None:
+            if e is not None and len(ck.violations) < 40:
                 def fails(s):
                     t2, g2 = impl_extract(text(s))
                     return t2 is not None and expr_oracle(text(s), refs(s), g2) is not None
@@ -212,18 +225,24 @@ def run_expressions(ck: Check, drv: LeanDriver, n: int, r, evaluate_every: int):
                     small_src, small_named = text(se), refs(se)
                 except Exception:
                     pass
-            ck.violate({"kind": "expr", "text": small_src, "named": sorted(small_named)}, bad)
+            if len(ck.violations) < 200:
+                ck.violate({"kind": "expr", "text": small_src, "named": sorted(small_named)}, bad)
+            else:
+                ck.count("further-violations")
         try:
             wire = tree_to_wire(tree)
         except UnknownNode as u:
             ck.disagree({"kind": "expr", "text": src}, "no constructor", str(u), "parse-tree-kinds")
             continue
         reqs.append({"op": "extract", "t": wire})
-        keep.append((src, named, got))
+        keep.append((src, got))
         ck.sample({"expr": src, "named": sorted(named), "impl": got[1] if got[0] == "ok" else got[0]})
     answers = ask(ck, drv, reqs)
-    for (src, named, got), ans in zip(keep, answers):
+    for (src, got), ans in zip(keep, answers):
         if ans is None:
+            continue
+        if len(ck.disagreements) > 300:
+            ck.count("further-disagreements")
             continue
         if "raise" in ans:
             model = ("raise",)
@@ -242,6 +261,7 @@ def run_expressions(ck: Check, drv: LeanDriver, n: int, r, evaluate_every: int):
             i_par = sorted({x if x is not None else "<None>" for x in parent_names(got[1])})
             if m_steps != i_steps or m_par != i_par:
                 ck.disagree({"kind": "expr", "text": src}, [m_steps, m_par], [i_steps, i_par], "name-patterns")
+    return serial
 
 
 def ask(ck: Check, drv: LeanDriver, reqs, chunk: int = 4000):
@@ -531,9 +551,17 @@ def shrink_workflow(spec, truth, fails):
     return cur_s, cur_t
 
 
-def run_workflows(ck: Check, drv: LeanDriver, n: int, r):
+def run_workflows(ck: Check, drv: LeanDriver, n: int, r, batch: int = 500):
     setup_cache()
     env_entries = [cache_state(k, nm) for k, nm in REFS]
+    done = 0
+    while done < n:
+        m = min(batch, n - done)
+        _workflow_batch(ck, drv, m, r, env_entries)
+        done += m
+
+
+def _workflow_batch(ck: Check, drv: LeanDriver, n: int, r, env_entries):
     reqs, keep = [], []
     for _ in range(n):
         spec, truth = gen_workflow(r)
@@ -544,15 +572,20 @@ def run_workflows(ck: Check, drv: LeanDriver, n: int, r):
             for s in got["steps"]:
                 ck.count("step:" + ("prepared" if "deps" in s else s["err"]))
             if any(t["named"] for t in truth):
-                ck.nontriv(json.dumps(spec, sort_keys=True))
+                ck.nontriv(hash(json.dumps(spec, sort_keys=True)))
         bad = workflow_oracle(spec, truth, got)
         if bad is not None:
-            def fails(s2, t2):
-                return workflow_oracle(s2, t2, impl_workflow(s2)) is not None
-            s2, t2 = shrink_workflow(spec, truth, fails)
-            ck.violate({"kind": "workflow", "spec": s2, "truth": t2}, workflow_oracle(s2, t2, impl_workflow(s2)) or bad)
+            if len(ck.violations) < 40:
+                def fails(s2, t2):
+                    return workflow_oracle(s2, t2, impl_workflow(s2)) is not None
+                s2, t2 = shrink_workflow(spec, truth, fails)
+                ck.violate({"kind": "workflow", "spec": s2, "truth": t2},
+                           workflow_oracle(s2, t2, impl_workflow(s2)) or bad)
+            else:
+                ck.count("further-violations")
         if "gate" in got:
-            ck.notes.append(f"generated workflow rejected by the schema gate: {got['msg']}") if len(ck.notes) < 3 else None
+            if len(ck.notes) < 3:
+                ck.notes.append(f"generated workflow rejected by the schema gate: {got['msg']}")
             continue
         try:
             reqs.append(workflow_request(spec, env_entries))
@@ -562,12 +595,16 @@ def run_workflows(ck: Check, drv: LeanDriver, n: int, r):
         except Exception as e:  # the real helper raised while preparing a field: the real prepare did too
             if "raise" not in got:
                 raise
-            ck.notes.append(f"field preparation raised: {e!r}"[:160]) if len(ck.notes) < 5 else None
+            if len(ck.notes) < 5:
+                ck.notes.append(f"field preparation raised: {e!r}"[:160])
             continue
         keep.append((spec, got))
     answers = ask(ck, drv, reqs, chunk=500)
     for (spec, got), ans in zip(keep, answers):
         if ans is None:
+            continue
+        if len(ck.disagreements) > 300:
+            ck.count("further-disagreements")
             continue
         if "raise" in ans or "raise" in got:
             if ("raise" in ans) != ("raise" in got):
@@ -757,7 +794,7 @@ def run_functions(ck: Check, drv: LeanDriver, n: int, r):
         ck.evaluated()
         ck.count("rf:" + ("raise" if "raise" in got else "permfail" if got["watched"] is None else "prepared"))
         if truth:
-            ck.nontriv(json.dumps(spec, sort_keys=True))
+            ck.nontriv(hash(json.dumps(spec, sort_keys=True)))
         bad = rf_oracle(truth, body_ok, got)
         if bad:
             ck.violate({"kind": "rf", "spec": spec, "truth": truth, "body_ok": body_ok}, bad)
@@ -770,7 +807,7 @@ def run_functions(ck: Check, drv: LeanDriver, n: int, r):
         ck.evaluated()
         ck.count("ft:" + ("raise" if "raise" in got else "permfail" if got["watched"] is None else "prepared"))
         ck.count(f"ft-fn:{fn[1]}")
-        ck.nontriv(json.dumps(spec, sort_keys=True))
+        ck.nontriv(hash(json.dumps(spec, sort_keys=True)))
         bad = ft_oracle(fn, got)
         if bad:
             ck.violate({"kind": "ft", "spec": spec, "fn": list(fn)}, bad)
